@@ -16,7 +16,7 @@ LEVEL = "exploration"
 CHUNK = 1
 MAX_JOBS = 8
 CASE_TIMEOUT = 2400
-REQUIRED_COUNTERS = ["runs_compared", "schedule_perturbed_parallel_calls", "distinct_schedules"]
+REQUIRED_COUNTERS = ["runs_compared", "schedule_perturbed_parallel_calls", "distinct_schedules", "warm_cache_hits_observed"]
 RULE = ("per spec (1-3 Einsums, ENERGY|LATENCY on trade-off cost tables so the front has several rows, exact ties included) "
         "a baseline run in a fresh process (1 worker, PYTHONHASHSEED=0, no cache, no perturbation; run twice and required "
         "to be self-identical) is compared with runs that differ only in: a seeded permutation of execution order and of "
@@ -41,14 +41,15 @@ def gen_cases(tier, seed):
     return cases
 
 
-def one_run(desc, metrics, env_extra, n_jobs=1, cache_dir=None, timeout=600, einsum_names=None):
+def one_run(desc, metrics, env_extra, n_jobs=1, cache_dir=None, timeout=600, einsum_names=None, spec_path=None):
     os.makedirs(WORK, exist_ok=True)
     fd, inp = tempfile.mkstemp(prefix="c20-in-", suffix=".json", dir=WORK)
     os.close(fd)
     outp = inp.replace("-in-", "-out-")
     logp = inp.replace("-in-", "-log-")
     with open(inp, "w") as f:
-        json.dump({"desc": desc, "metrics": metrics, "n_jobs": n_jobs, "cache_dir": cache_dir, "einsum_names": einsum_names}, f)
+        json.dump({"desc": desc, "metrics": metrics, "n_jobs": n_jobs, "cache_dir": cache_dir, "einsum_names": einsum_names,
+                   "spec_path": spec_path}, f)
     env = dict(os.environ)
     for k in list(env):
         if k.startswith("ACCELFORGE_VERIF_SCHEDULE"):
@@ -119,8 +120,12 @@ def run_case(case):
     per_kind = {}
     import concurrent.futures as cf
     # cache_cold must finish before cache_warm starts; everything else is independent
+    # runs that share a cache_dir load the spec from ONE file path, like a script that is run again (the path the
+    # Spec was loaded from is part of the cache key; with a fresh temporary file per run the cache would never hit)
+    spec_path = os.path.join(WORK, f"c20-spec-{os.getpid()}-{rnd.randrange(10**9)}.yaml")
+
     def launch(v):
-        return one_run(d, metrics, v[1], n_jobs=v[2], cache_dir=v[3])
+        return one_run(d, metrics, v[1], n_jobs=v[2], cache_dir=v[3], spec_path=spec_path if v[3] else None)
     with cf.ThreadPoolExecutor(max_workers=3) as ex:
         futs = {i: ex.submit(launch, v) for i, v in enumerate(variants) if v[0] != "cache_warm"}
         results = {i: f.result() for i, f in futs.items()}
@@ -134,6 +139,11 @@ def run_case(case):
             counters["inconclusive:" + str(rec.get("error"))[:60]] = 1
             continue
         bump("runs_compared")
+        if kind == "cache_warm":
+            if rec.get("cache_entries_before", 0) >= 1 and rec.get("cache_entries_after") == rec.get("cache_entries_before"):
+                bump("warm_cache_hits_observed")
+            else:
+                bump("warm_cache_run_missed_the_cache")
         bump("schedule_perturbed_parallel_calls", len(sched))
         if sched:
             schedules.add(hashlib.sha1(json.dumps(sched).encode()).hexdigest()[:10])
@@ -156,9 +166,11 @@ def run_case(case):
     if len(enames) >= 2:
         sub = [enames[0]]
         cache2 = os.path.join(WORK, f"c20-cache2-{os.getpid()}-{rnd.randrange(10**9)}")
-        one_run(d, metrics, {"PYTHONHASHSEED": "0"}, cache_dir=cache2, einsum_names=sub)
-        rec, _ = one_run(d, metrics, {"PYTHONHASHSEED": "0"}, cache_dir=cache2)
+        one_run(d, metrics, {"PYTHONHASHSEED": "0"}, cache_dir=cache2, einsum_names=sub, spec_path=spec_path)
+        rec, _ = one_run(d, metrics, {"PYTHONHASHSEED": "0"}, cache_dir=cache2, spec_path=spec_path)
         bump("cache_history_runs")
+        if not rec.get("ok"):
+            bump("inconclusive_runs")
         if rec.get("ok") and rec["rows"] is not None:
             if vectors(rec["rows"]) != bvec:
                 viol.append({"sig": "front_depends_on:cache_history", "witness": {"history": ["einsum_names=" + str(sub), "all Einsums"],
@@ -170,9 +182,18 @@ def run_case(case):
         shutil.rmtree(cache2, ignore_errors=True)
         cache3 = os.path.join(WORK, f"c20-cache3-{os.getpid()}-{rnd.randrange(10**9)}")
         fresh, _ = one_run(d, metrics, {"PYTHONHASHSEED": "0"}, einsum_names=sub)
-        one_run(d, metrics, {"PYTHONHASHSEED": "0"}, cache_dir=cache3)
-        rec, _ = one_run(d, metrics, {"PYTHONHASHSEED": "0"}, cache_dir=cache3, einsum_names=sub)
+        one_run(d, metrics, {"PYTHONHASHSEED": "0"}, cache_dir=cache3, spec_path=spec_path)
+        rec, _ = one_run(d, metrics, {"PYTHONHASHSEED": "0"}, cache_dir=cache3, einsum_names=sub, spec_path=spec_path)
         bump("cache_history_runs")
+        if not (rec.get("ok") and fresh.get("ok")):
+            bump("inconclusive_runs")
+        # a third request with the SAME arguments as the first one of this history must hit the cache
+        rec3, _ = one_run(d, metrics, {"PYTHONHASHSEED": "0"}, cache_dir=cache3, spec_path=spec_path)
+        if rec3.get("ok") and rec3.get("cache_entries_before", 0) >= 1 and rec3.get("cache_entries_after") == rec3.get("cache_entries_before"):
+            bump("warm_cache_hits_observed")
+            if rec3["rows"] is not None and vectors(rec3["rows"]) != bvec:
+                viol.append({"sig": "front_depends_on:cache_history", "witness": {"history": ["all Einsums", "einsum_names=" + str(sub), "all Einsums"],
+                                                                                   "baseline_front": bvec[:10], "front": vectors(rec3["rows"])[:10]}})
         if fresh.get("ok") and rec.get("ok") and fresh["rows"] is not None and rec["rows"] is not None:
             if vectors(rec["rows"]) != vectors(fresh["rows"]):
                 viol.append({"sig": "front_depends_on:cache_history", "witness": {"history": ["all Einsums", "einsum_names=" + str(sub)],
@@ -181,6 +202,10 @@ def run_case(case):
     for (what, kind), lst in per_kind.items():
         sig = (f"front_depends_on:{kind}" if what == "front" else f"mapping_structure_depends_on:{kind}")
         viol.append({"sig": sig, "witness": dict(lst[0], differing_runs=len(lst))})
+    try:
+        os.remove(spec_path)
+    except OSError:
+        pass
     counters["distinct_schedules"] = len(schedules)
     nt = [json.dumps([d["class"], d["workload"]["ranks"], k]) for k in ("schedule", "hashseed", "n_jobs", "cache")] if len(base["rows"]) >= 2 else []
     return {"status": "violation" if viol else "ok", "violations": viol, "nontrivial": nt, "counters": counters,
